@@ -57,6 +57,9 @@ func runSeqMapCase(cs *seqMapCase, res *result, caseIdx int64, classes map[strin
 			Case: map[string]any{"case_index": caseIdx, "desc": cs.desc, "step": step, "ops_tail": cs.show(step)}})
 	}
 	for step, op := range cs.ops {
+		if opHook != nil {
+			opHook()
+		}
 		h.addStr(op.what)
 		h.add(uint64(op.kind), uint64(op.k), uint64(op.fn))
 		switch op.what {
@@ -152,6 +155,10 @@ func runSeqMapCase(cs *seqMapCase, res *result, caseIdx int64, classes map[strin
 	}
 	return h.sum(), nontrivial
 }
+
+// opHook, when set, runs before every operation of the sequential engines
+// (the termination engine re-arms its step budget there).
+var opHook func()
 
 var seqID int64
 
